@@ -50,3 +50,53 @@ pub proof fn lemma_injective_seq_covers<A>(ks: Seq<A>, d: Set<A>)
         assert(ks.to_set().contains(k));
     }
 }
+
+// ---- T5 wrappers: provided iterator methods Verus cannot specify directly.  The external body IS the
+// call to the real methods; the ensures clause is the assumed contract of those methods.
+// `.filter(p).max_by_key(k)` on a slice iterator is renamed to `.vp_filter(p).vp_max_by_key(k)`: vp_filter
+// only pairs the iterator with the closure (a std Filter over a closure type cannot be specified inside a
+// generic function), vp_max_by_key runs the real `it.filter(p).max_by_key(k)`.
+pub struct VpFilter<'a, T, P> { pub it: core::slice::Iter<'a, T>, pub p: P }
+pub trait VpSliceIter<'a, T>: Sized {
+    fn vp_filter<P: FnMut(&&'a T) -> bool>(self, p: P) -> (r: VpFilter<'a, T, P>);
+}
+impl<'a, T> VpSliceIter<'a, T> for core::slice::Iter<'a, T> {
+    fn vp_filter<P: FnMut(&&'a T) -> bool>(self, p: P) -> (r: VpFilter<'a, T, P>)
+        ensures r.it == self, r.p == p
+    { VpFilter { it: self, p } }
+}
+/// spec of `slice.iter().filter(p).max_by_key(key)`: the LAST element of maximal key among the elements
+/// accepted by the filter closure (std: "if several elements are equally maximum, the last element is
+/// returned"); None iff no element is accepted.  The filter closure is evaluated on every element and
+/// the key closure on every accepted element.
+impl<'a, T, P: FnMut(&&'a T) -> bool> VpFilter<'a, T, P> {
+    #[verifier::external_body]
+    pub fn vp_max_by_key<B: Ord, F: FnMut(&&'a T) -> B>(self, f: F) -> (r: Option<&'a T>)
+        requires forall|x: &&'a T| #[trigger] call_requires(self.p, (x,)), forall|x: &&'a T| #[trigger] call_requires(f, (x,)),
+        ensures ({
+                let s = self.it.remaining();
+                let p = self.p;
+                &&& forall|j: int| 0 <= j < s.len() ==> call_ensures(p, (&#[trigger] s[j],), true) || call_ensures(p, (&s[j],), false)
+                &&& forall|j: int| 0 <= j < s.len() && call_ensures(p, (&#[trigger] s[j],), true) ==> call_ensures(f, (&s[j],), vp_key(f, &s[j]))
+                &&& match r {
+                    None => forall|i: int| 0 <= i < s.len() ==> !call_ensures(p, (&#[trigger] s[i],), true),
+                    Some(x) => ({
+                        let i = vp_witness(s, x);
+                        0 <= i < s.len() && s[i] == x && call_ensures(p, (&s[i],), true)
+                        && (forall|j: int| 0 <= j < s.len() && call_ensures(p, (&#[trigger] s[j],), true)
+                                ==> vp_le(vp_key(f, &s[j]), vp_key(f, &s[i])) && (j > i ==> !vp_le(vp_key(f, &s[i]), vp_key(f, &s[j]))))
+                    }),
+                }
+            }),
+    { self.it.filter(self.p).max_by_key(f) }
+}
+/// the position of the returned element (a skolem function: avoids an existential in the contract)
+pub uninterp spec fn vp_witness<T>(s: Seq<T>, x: T) -> int;
+/// the key the closure produced for x (some value it ensures)
+pub open spec fn vp_key<X, B, F: FnMut(&X) -> B>(f: F, x: &X) -> B { choose|k: B| call_ensures(f, (x,), k) }
+pub uninterp spec fn vp_le<B>(a: B, b: B) -> bool;
+pub mod vp_ax {
+    use super::*;
+    pub broadcast axiom fn axiom_vp_le_usize(a: usize, b: usize) ensures #[trigger] vp_le::<usize>(a, b) == (a <= b);
+}
+pub use vp_ax::*;
